@@ -7,7 +7,7 @@
    normalised Laplacian and the multi-order combination are covered by the correspondence/oracle. *)
 From Coq Require Import String ZArith QArith List Bool.
 From XV Require Import Base.Label Base.LSet Base.ODict Base.Attr Base.Outcome Model.Hypergraph Model.Hodge Model.Matrix
-  Proofs.HgViews Proofs.HgInv Proofs.HgStep Proofs.HodgeProofs Proofs.MatrixProofs.
+  Proofs.HgViews Proofs.HgInv Proofs.HgStep Proofs.HodgeProofs Proofs.MatrixProofs Proofs.MultiorderProofs.
 Import ListNotations.
 Open Scope Z_scope.
 
@@ -97,6 +97,26 @@ Proof.
   apply Inv_Wellformed. apply run_Inv; [exact A|apply Inv_empty].
 Qed.
 Print Assumptions C12_laplacian_psd.
+
+(* the multi-order Laplacian sum_d L_d w_d / <K_d> (also with rescale_per_node): at every reachable
+   state, for every list of orders and every list of non-negative weights, it is an n x n matrix whose
+   rows sum to zero and whose quadratic form is non-negative (exact rational arithmetic) *)
+Theorem C12_multiorder_row_sums_and_psd : forall ops orders weights rescale (y : lbl -> Z),
+  admissible_history hg_empty ops ->
+  let s := run ops hg_empty in
+  let n := length (h_node s) in
+  let M := multiorder_laplacian s orders weights rescale in
+  (forall w, In w weights -> 0 <= w) ->
+  length M = n /\ (forall r, In r M -> length r = n) /\
+  (forall i, (i < n)%nat -> (rowsum M n i == 0)%Q) /\
+  (0 <= qformQ M n (fun i => y (nth i (keys (h_node s)) LNone)))%Q.
+Proof.
+  intros ops orders weights rescale y A s n M Hw.
+  assert (WF : Wellformed s) by (apply Inv_Wellformed; apply run_Inv; [exact A|apply Inv_empty]).
+  destruct (multiorder_Good s WF y orders weights rescale Hw) as [G1 G2 G3 G4].
+  split; [exact G1|]. split; [exact G2|]. split; [exact G3|exact G4].
+Qed.
+Print Assumptions C12_multiorder_row_sums_and_psd.
 
 Example C12_nonvacuous :
   let s := run [OAddEdgesFrom (EB1 [[LInt 1; LInt 2; LInt 3]; [LInt 1; LInt 2]; [LInt 3; LInt 4]]) []; OAddNode (LInt 9) []] hg_empty in
